@@ -10,8 +10,10 @@ CONSTANTS
   MaxUpd = 1
   Clock0 = 1
   MaxClock = 1
+  CasRaw = TRUE
   ThinK = 0
   ThinR = 0
+  ThinA = 0
 INIT Init
 NEXT Next
 VIEW View
